@@ -232,6 +232,9 @@ def work(args):
         return rec
     finally:
         subprocess.run(["git", "-C", wt, "checkout", "--", "."], capture_output=True)
+        # a mutant of the runner can switch the live monitor on: `python -m tdgl.visualize ... monitor` is started in its own
+        # session and, on a backend without a window, never exits (DESIGN.md 11.5, observation 1) - do not leave orphans behind
+        subprocess.run(["pkill", "-9", "-f", "tdgl.visualize --input /tmp/verif_"], capture_output=True)
 
 
 def main():
